@@ -58,6 +58,19 @@ func (s Spec) String() string {
 	return x
 }
 
+// TableStats is what the generators may observe to classify cases (never used by an oracle).
+type TableStats struct {
+	OK             bool
+	Growths        int64
+	Shrinks        int64
+	Root, Total    int
+	MaxChain, Size int
+}
+
+func fromStats(s xsync.MapStats) TableStats {
+	return TableStats{OK: true, Growths: s.TotalGrowths, Shrinks: s.TotalShrinks, Root: s.RootBuckets, Total: s.TotalBuckets, MaxChain: s.MaxEntries, Size: s.Size}
+}
+
 // SKey is the padded struct key type.
 type SKey struct {
 	A int32
@@ -73,6 +86,8 @@ type API interface {
 	Spec() Spec
 	// Stats returns (growths, shrinks, rootBuckets) when the container exposes them (-1 otherwise).
 	Stats() (int64, int64, int)
+	// Table returns table statistics when the container exposes them.
+	Table() TableStats
 }
 
 const maxThreads = 8
@@ -173,6 +188,12 @@ func toInt(v interface{}) int {
 }
 
 func (a *mapAd) Spec() Spec { return a.spec }
+func (a *mapAd) Table() TableStats {
+	if a.raw == nil {
+		return TableStats{}
+	}
+	return fromStats(a.raw.Stats())
+}
 func (a *mapAd) Stats() (int64, int64, int) {
 	if a.raw == nil {
 		return -1, -1, -1
@@ -224,6 +245,12 @@ func (a *mapAd) Do(o *model.Op) (r model.Res) {
 		a.m.Range(func(k string, v interface{}) bool {
 			r.Vis = append(r.Vis, model.KV{K: a.kc.from(k), V: toInt(v)})
 			n++
+			for i := range o.Muts {
+				if o.Muts[i].At == n-1 {
+					mo := o.Muts[i].Op
+					a.Do(&mo)
+				}
+			}
 			return !(o.N > 0 && n >= o.N)
 		})
 	case model.HBulkSet:
@@ -240,6 +267,8 @@ func (a *mapAd) Do(o *model.Op) (r model.Res) {
 				r.Vis = append(r.Vis, model.KV{K: o.Key + i, V: toInt(v)})
 			}
 		}
+	case model.HAdvance:
+		vs.NowNS += o.D
 	default:
 		r.Note = "unsupported"
 	}
@@ -256,6 +285,12 @@ type mapOfAd[K comparable] struct {
 }
 
 func (a *mapOfAd[K]) Spec() Spec { return a.spec }
+func (a *mapOfAd[K]) Table() TableStats {
+	if a.raw == nil {
+		return TableStats{}
+	}
+	return fromStats(a.raw.Stats())
+}
 func (a *mapOfAd[K]) Stats() (int64, int64, int) {
 	if a.raw == nil {
 		return -1, -1, -1
@@ -300,6 +335,12 @@ func (a *mapOfAd[K]) Do(o *model.Op) (r model.Res) {
 		a.m.Range(func(k K, v int) bool {
 			r.Vis = append(r.Vis, model.KV{K: a.kc.from(k), V: v})
 			n++
+			for i := range o.Muts {
+				if o.Muts[i].At == n-1 {
+					mo := o.Muts[i].Op
+					a.Do(&mo)
+				}
+			}
 			return !(o.N > 0 && n >= o.N)
 		})
 	case model.HBulkSet:
@@ -316,6 +357,8 @@ func (a *mapOfAd[K]) Do(o *model.Op) (r model.Res) {
 				r.Vis = append(r.Vis, model.KV{K: o.Key + i, V: v})
 			}
 		}
+	case model.HAdvance:
+		vs.NowNS += o.D
 	default:
 		r.Note = "unsupported"
 	}
@@ -363,6 +406,7 @@ type cacheAd struct {
 }
 
 func (a *cacheAd) Spec() Spec                { return a.spec }
+func (a *cacheAd) Table() TableStats          { return TableStats{} }
 func (a *cacheAd) Stats() (int64, int64, int) { return -1, -1, -1 }
 
 func (a *cacheAd) mkCallback() cache.EvictedCallback {
@@ -388,8 +432,9 @@ func (a *cacheAd) mkCallback() cache.EvictedCallback {
 
 func (a *cacheAd) Do(o *model.Op) (r model.Res) {
 	t := tid()
+	outer := a.ss.sinks[t]
 	a.ss.sinks[t] = &r
-	defer func() { a.ss.sinks[t] = nil }()
+	defer func() { a.ss.sinks[t] = outer }()
 	k := a.kc.to(o.Key)
 	d := time.Duration(o.D)
 	c := a.c
@@ -445,6 +490,12 @@ func (a *cacheAd) Do(o *model.Op) (r model.Res) {
 		c.Range(func(k string, v interface{}) bool {
 			r.Vis = append(r.Vis, model.KV{K: a.kc.from(k), V: toInt(v)})
 			n++
+			for i := range o.Muts {
+				if o.Muts[i].At == n-1 {
+					mo := o.Muts[i].Op
+					a.Do(&mo)
+				}
+			}
 			return !(o.N > 0 && n >= o.N)
 		})
 	case model.CItems:
@@ -483,6 +534,8 @@ func (a *cacheAd) Do(o *model.Op) (r model.Res) {
 				r.Vis = append(r.Vis, model.KV{K: o.Key + i, V: toInt(v)})
 			}
 		}
+	case model.HAdvance:
+		vs.NowNS += o.D
 	default:
 		r.Note = "unsupported"
 	}
@@ -531,6 +584,7 @@ type cacheOfAd[K comparable] struct {
 }
 
 func (a *cacheOfAd[K]) Spec() Spec                { return a.spec }
+func (a *cacheOfAd[K]) Table() TableStats          { return TableStats{} }
 func (a *cacheOfAd[K]) Stats() (int64, int64, int) { return -1, -1, -1 }
 
 func (a *cacheOfAd[K]) mkCallback() cache.EvictedCallbackOf[K, int] {
@@ -555,8 +609,9 @@ func (a *cacheOfAd[K]) mkCallback() cache.EvictedCallbackOf[K, int] {
 
 func (a *cacheOfAd[K]) Do(o *model.Op) (r model.Res) {
 	t := tid()
+	outer := a.ss.sinks[t]
 	a.ss.sinks[t] = &r
-	defer func() { a.ss.sinks[t] = nil }()
+	defer func() { a.ss.sinks[t] = outer }()
 	k := a.kc.to(o.Key)
 	d := time.Duration(o.D)
 	c := a.c
@@ -606,6 +661,12 @@ func (a *cacheOfAd[K]) Do(o *model.Op) (r model.Res) {
 		c.Range(func(k K, v int) bool {
 			r.Vis = append(r.Vis, model.KV{K: a.kc.from(k), V: v})
 			n++
+			for i := range o.Muts {
+				if o.Muts[i].At == n-1 {
+					mo := o.Muts[i].Op
+					a.Do(&mo)
+				}
+			}
 			return !(o.N > 0 && n >= o.N)
 		})
 	case model.CItems:
@@ -644,6 +705,8 @@ func (a *cacheOfAd[K]) Do(o *model.Op) (r model.Res) {
 				r.Vis = append(r.Vis, model.KV{K: o.Key + i, V: v})
 			}
 		}
+	case model.HAdvance:
+		vs.NowNS += o.D
 	default:
 		r.Note = "unsupported"
 	}
